@@ -118,6 +118,9 @@ pub struct Inv {
     pub unit_enums: BTreeMap<String, Vec<String>>,
     /// parsed `impl { .. }` items of newtype invocations, by type name (for consts.rs)
     pub newtype_impl_items: BTreeMap<String, Vec<syn::ImplItem>>,
+    /// parts of the inventory that could not be translated (the corresponding entries are simply missing, so exactly
+    /// the obligations that speak about them fail)
+    pub soft_failures: Vec<crate::Failure>,
 }
 
 impl Inv {
@@ -604,7 +607,10 @@ fn walk_items(file: &str, items: &[syn::Item], inv: &mut Inv) -> R<()> {
                     if let Some(id) = &m.ident {
                         let n = id.to_string();
                         if NEWTYPE_MACROS.contains(&n.as_str()) {
-                            inv.macros.push(macro_def(file, m, &n)?);
+                            match macro_def(file, m, &n) {
+                                Ok(d) => inv.macros.push(d),
+                                Err(e) => inv.soft_failures.push(e),
+                            }
                         }
                     }
                 } else if NEWTYPE_MACROS.contains(&mname.as_str()) {
@@ -620,7 +626,10 @@ fn walk_items(file: &str, items: &[syn::Item], inv: &mut Inv) -> R<()> {
                         if let syn::ImplItem::Fn(f) = ii {
                             impl_fns.push(f.sig.ident.to_string());
                             if f.sig.ident == "new_random_len" {
-                                inv.random_len.push(random_len(file, &name, f)?);
+                                match random_len(file, &name, f) {
+                                    Ok(r) => inv.random_len.push(r),
+                                    Err(e) => inv.soft_failures.push(e),
+                                }
                             }
                         }
                     }
@@ -729,10 +738,13 @@ fn walk_items(file: &str, items: &[syn::Item], inv: &mut Inv) -> R<()> {
                                 process_response_calls: prc,
                             });
                         } else if get("request").is_some() != get("request_async").is_some() {
-                            return fail(file, &format!("impl {ty}"), "`request` and `request_async` to be defined together");
+                            inv.soft_failures.push(crate::Failure { file: file.to_string(), item: format!("impl {ty}"), expected: "`request` and `request_async` to be defined together".into() });
                         }
                         if let Some(f) = get("new_random_len") {
-                            inv.random_len.push(random_len(file, &ty, f)?);
+                            match random_len(file, &ty, f) {
+                                Ok(r) => inv.random_len.push(r),
+                                Err(e) => inv.soft_failures.push(e),
+                            }
                         }
                     }
                 }
@@ -752,7 +764,7 @@ pub fn extract(srcs: &Sources) -> R<Inv> {
     }
     for m in NEWTYPE_MACROS {
         if !inv.macros.iter().any(|d| d.name == *m) {
-            return fail("types.rs", &format!("macro_rules! {m}"), "the macro definition to exist");
+            inv.soft_failures.push(crate::Failure { file: "types.rs".into(), item: format!("macro_rules! {m}"), expected: "the macro definition to exist (in a translatable shape)".into() });
         }
     }
     if inv.client_fields.is_empty() {
